@@ -55,6 +55,15 @@ def run(repo, res):
                           sample='%s: %s %s every route to %s' % (r['cls'], r['a'],
                                                                    'is on' if r['ref_dom'] else 'is not on', r['b']))
     res.count('block_pairs', n, floor=100)
+    # ---- continuity of statement blocks (shared with C01-R5): a dropped exit region loses/keeps definitions ----
+    for cls, r in sorted(R.continuity_records(repo).items()):
+        for path, line in sorted(r['dropped'].items()):
+            stmt_block = path.split('.')[-1].split('[')[0] in ('body', 'orelse', 'finalbody')
+            if not stmt_block:
+                continue
+            res.check('C03-R5', '%s %s exit dropped' % (R.method_name(repo, cls), path), False, line[0], line[1],
+                      'the region left current after the statement block %s.%s is discarded: the join keeps the stale region: definitions overwritten inside the block stay listed (phantom) and names bound there look undefined' % (cls, path))
+    res.ob('C03-R5', 'statement-block continuity', True, sample='every statement block\'s exit region is consumed by a join, the next block or the scope')
     brecs = R.binder_records(repo)
     for (cls, kind, path), r in sorted(brecs.items()):
         if r['n'] == 0 or r['missing']:
